@@ -1,28 +1,289 @@
-//! C01 — conversions invert (edge round trips).
+//! C01 — conversions invert (edge round trips), direct == stepwise, alpha passes through.
+//! Domains: the nominal box of the source space; where the target cannot represent part of the box
+//! (Y = 0 with X > 0 has no xyY / L*u*v* representation) that part is excluded by an `assume`,
+//! as the property statement allows ("any other space that can represent it").
 use crate::logic::*;
-use crate::specs;
 use palette::convert::FromColorUnclamped;
+use palette::encoding::{Linear, Srgb};
 use palette::white_point::D65;
-use palette::{Lab, Xyz};
+use palette::{Alpha, Hsl, Hsv, Hwb, Lab, Lch, Lchuv, LinSrgb, Luv, Oklab, Oklch, Xyz, Yxy};
+
+macro_rules! rt3 {
+    ($a:expr, $b:expr, $tol:expr, [$($n:literal : $x:expr, $y:expr);*]) => {
+        $( T::ensure($n, abs_le($x, $y, $tol)); )*
+    };
+}
 
 program!(c01_xyz_lab_xyz, "C01", "quick", sv,
     "FromColorUnclamped<Xyz> for Lab [lab.rs], FromColorUnclamped<Lab> for Xyz [xyz.rs]",
     "E-rt: Xyz -> Lab -> Xyz is the identity on the white-point box, |d| <= 1e-9 per component",
 {
-    let x = T::var("x", 0.0, 0.95047);
-    let y = T::var("y", 0.0, 1.0);
-    let z = T::var("z", 0.0, 1.08883);
+    let (x, y, z) = (T::var("x", 0.0, 0.95047), T::var("y", 0.0, 1.0), T::var("z", 0.0, 1.08883));
     let c: Xyz<D65, T> = Xyz::new(x, y, z);
     let lab: Lab<D65, T> = Lab::from_color_unclamped(c);
     let back: Xyz<D65, T> = Xyz::from_color_unclamped(lab);
-    let tol = T::tol(1e-9, 1e-6);
+    let tol = T::tol(1e-9, 1e-5);
     T::ensure("rt.x", abs_le(back.x, x, tol));
     T::ensure("rt.y", abs_le(back.y, y, tol));
     T::ensure("rt.z", abs_le(back.z, z, tol));
-    T::output("l", &lab.l);
-    let _ = specs::cie_f::<T>;
+});
+
+program!(c01_lab_xyz_lab, "C01", "quick", sv,
+    "FromColorUnclamped<Lab> for Xyz [xyz.rs], FromColorUnclamped<Xyz> for Lab [lab.rs]",
+    "E-rt: Lab -> Xyz -> Lab is the identity on the nominal Lab box, |d| <= 1e-6",
+{
+    let (l, a, b) = (T::var("l", 0.0, 100.0), T::var("a", -128.0, 127.0), T::var("b", -128.0, 127.0));
+    let c: Lab<D65, T> = Lab::new(l, a, b);
+    let xyz: Xyz<D65, T> = Xyz::from_color_unclamped(c);
+    let back: Lab<D65, T> = Lab::from_color_unclamped(xyz);
+    let tol = T::tol(1e-6, 1e-3);
+    T::ensure("rt.l", abs_le(back.l, l, tol));
+    T::ensure("rt.a", abs_le(back.a, a, tol));
+    T::ensure("rt.b", abs_le(back.b, b, tol));
+});
+
+program!(c01_xyz_luv_xyz, "C01", "quick", s,
+    "FromColorUnclamped<Xyz> for Luv [luv.rs], FromColorUnclamped<Luv> for Xyz [xyz.rs]",
+    "E-rt: Xyz -> Luv -> Xyz is the identity on the white-point box with Y >= 1e-6 (below, L*u*v* collapses to black), |d| <= 1e-9",
+{
+    let (x, y, z) = (T::var("x", 0.0, 0.95047), T::var("y", 0.000001, 1.0), T::var("z", 0.0, 1.08883));
+    let c: Xyz<D65, T> = Xyz::new(x, y, z);
+    let luv: Luv<D65, T> = Luv::from_color_unclamped(c);
+    let back: Xyz<D65, T> = Xyz::from_color_unclamped(luv);
+    let tol = T::tol(1e-9, 1e-5);
+    T::ensure("rt.x", abs_le(back.x, x, tol));
+    T::ensure("rt.y", abs_le(back.y, y, tol));
+    T::ensure("rt.z", abs_le(back.z, z, tol));
+});
+
+program!(c01_xyz_yxy_xyz, "C01", "quick", sv,
+    "FromColorUnclamped<Xyz> for Yxy [yxy.rs], FromColorUnclamped<Yxy> for Xyz [xyz.rs]",
+    "E-rt: Xyz -> Yxy -> Xyz is the identity on the white-point box with Y > 0 (Y = 0 has no chromaticity), |d| <= 1e-9",
+{
+    let (x, y, z) = (T::var("x", 0.0, 0.95047), T::var("y", 0.0, 1.0), T::var("z", 0.0, 1.08883));
+    T::assume(T::p_lt(&T::k(0.0), &y));
+    let c: Xyz<D65, T> = Xyz::new(x, y, z);
+    let yxy: Yxy<D65, T> = Yxy::from_color_unclamped(c);
+    let back: Xyz<D65, T> = Xyz::from_color_unclamped(yxy);
+    let tol = T::tol(1e-9, 1e-5);
+    T::ensure("rt.x", abs_le(back.x, x, tol));
+    T::ensure("rt.y", abs_le(back.y, y, tol));
+    T::ensure("rt.z", abs_le(back.z, z, tol));
+});
+
+program!(c01_linsrgb_xyz_linsrgb, "C01", "quick", sv,
+    "FromColorUnclamped<Rgb> for Xyz [xyz.rs], FromColorUnclamped<Xyz> for Rgb [rgb/rgb.rs], Srgb::{rgb_to_xyz_matrix, xyz_to_rgb_matrix} [encoding/srgb.rs]",
+    "E-rt: linear sRGB -> Xyz -> linear sRGB is the identity on [0,1]^3 within 1e-6 (7-digit hard-coded matrices)",
+{
+    let (r, g, b) = (T::var("r", 0.0, 1.0), T::var("g", 0.0, 1.0), T::var("b", 0.0, 1.0));
+    let c: LinSrgb<T> = LinSrgb::new(r, g, b);
+    let xyz: Xyz<D65, T> = Xyz::from_color_unclamped(c);
+    let back: LinSrgb<T> = LinSrgb::from_color_unclamped(xyz);
+    let tol = T::tol(1e-6, 1e-5);
+    T::ensure("rt.r", abs_le(back.red, r, tol));
+    T::ensure("rt.g", abs_le(back.green, g, tol));
+    T::ensure("rt.b", abs_le(back.blue, b, tol));
+});
+
+program!(c01_srgb_transfer_rt, "C01", "quick", sv,
+    "Rgb::into_linear / Rgb::from_linear -> Srgb::{into_linear, from_linear} [rgb/rgb.rs, encoding/srgb.rs]",
+    "E-rt: encoded sRGB -> linear -> encoded is the identity on [0,1] outside the knee band (0.0404, 0.0405), where the published constants leave a step (that step is engine X's exact ground obligation)",
+{
+    let v = T::var("v", 0.0, 1.0);
+    T::assume(T::p_or(T::p_le(&v, &T::k(0.0404)), T::p_le(&T::k(0.0405), &v)));
+    let c: palette::Srgb<T> = palette::Srgb::new(v, v, v);
+    let lin: LinSrgb<T> = c.into_linear();
+    let back: palette::Srgb<T> = palette::Srgb::from_linear(lin);
+    T::ensure("rt.v", abs_le(back.red, v, T::tol(1e-9, 1e-5)));
+    T::ensure("lin.range", in_range(lin.red, 0.0, 1.0));
+});
+
+program!(c01_rgb_hsv_rgb, "C01", "quick", sv,
+    "FromColorUnclamped<Rgb> for Hsv [hsv.rs], FromColorUnclamped<Hsv> for Rgb [rgb/rgb.rs]",
+    "E-rt: Rgb -> Hsv -> Rgb is the identity on [0,1]^3, |d| <= 1e-9",
+{
+    let (r, g, b) = (T::var("r", 0.0, 1.0), T::var("g", 0.0, 1.0), T::var("b", 0.0, 1.0));
+    let c: palette::rgb::Rgb<Srgb, T> = palette::rgb::Rgb::new(r, g, b);
+    let hsv: Hsv<Srgb, T> = Hsv::from_color_unclamped(c);
+    let back: palette::rgb::Rgb<Srgb, T> = palette::rgb::Rgb::from_color_unclamped(hsv);
+    let tol = T::tol(1e-9, 1e-5);
+    T::ensure("rt.r", abs_le(back.red, r, tol));
+    T::ensure("rt.g", abs_le(back.green, g, tol));
+    T::ensure("rt.b", abs_le(back.blue, b, tol));
+});
+
+program!(c01_rgb_hsl_rgb, "C01", "quick", s,
+    "FromColorUnclamped<Rgb> for Hsl [hsl.rs], FromColorUnclamped<Hsl> for Rgb [rgb/rgb.rs]",
+    "E-rt: Rgb -> Hsl -> Rgb is the identity on [0,1]^3, |d| <= 1e-9",
+{
+    let (r, g, b) = (T::var("r", 0.0, 1.0), T::var("g", 0.0, 1.0), T::var("b", 0.0, 1.0));
+    let c: palette::rgb::Rgb<Srgb, T> = palette::rgb::Rgb::new(r, g, b);
+    let hsl: Hsl<Srgb, T> = Hsl::from_color_unclamped(c);
+    let back: palette::rgb::Rgb<Srgb, T> = palette::rgb::Rgb::from_color_unclamped(hsl);
+    let tol = T::tol(1e-9, 1e-5);
+    T::ensure("rt.r", abs_le(back.red, r, tol));
+    T::ensure("rt.g", abs_le(back.green, g, tol));
+    T::ensure("rt.b", abs_le(back.blue, b, tol));
+});
+
+program!(c01_hsv_hwb_hsv, "C01", "quick", sv,
+    "FromColorUnclamped<Hsv> for Hwb [hwb.rs], FromColorUnclamped<Hwb> for Hsv [hsv.rs]",
+    "E-rt: Hsv -> Hwb -> Hsv is the identity for s in [0,1], v in (0,1] (v = 0 has no saturation), hue passed through unchanged",
+{
+    let (h, s, v) = (T::var("h", -360.0, 720.0), T::var("s", 0.0, 1.0), T::var("v", 0.0, 1.0));
+    T::assume(T::p_lt(&T::k(0.0), &v));
+    let c: Hsv<Srgb, T> = Hsv::new(h, s, v);
+    let hwb: Hwb<Srgb, T> = Hwb::from_color_unclamped(c);
+    let back: Hsv<Srgb, T> = Hsv::from_color_unclamped(hwb);
+    let tol = T::tol(1e-9, 1e-5);
+    T::ensure("rt.s", abs_le(back.saturation, s, tol));
+    T::ensure("rt.v", abs_le(back.value, v, tol));
+    T::identical("hue_passes_through", &back.hue.into_raw_degrees(), &h);
+    T::ensure("hwb.in_bounds", conj::<T>(&[in_range(hwb.whiteness, -1e-12, 1.0 + 1e-12), in_range(hwb.blackness, -1e-12, 1.0 + 1e-12),
+        T::p_le(&(hwb.whiteness + hwb.blackness), &T::k(1.0 + 1e-9))]));
+});
+
+program!(c01_hsv_hsl_hsv, "C01", "quick", sv,
+    "FromColorUnclamped<Hsv> for Hsl [hsl.rs], FromColorUnclamped<Hsl> for Hsv [hsv.rs]",
+    "E-rt: Hsv -> Hsl -> Hsv is the identity for s in [0,1], v in (0,1] , hue passed through unchanged",
+{
+    let (h, s, v) = (T::var("h", -360.0, 720.0), T::var("s", 0.0, 1.0), T::var("v", 0.0, 1.0));
+    T::assume(T::p_lt(&T::k(0.0), &v));
+    let c: Hsv<Srgb, T> = Hsv::new(h, s, v);
+    let hsl: Hsl<Srgb, T> = Hsl::from_color_unclamped(c);
+    let back: Hsv<Srgb, T> = Hsv::from_color_unclamped(hsl);
+    let tol = T::tol(1e-9, 1e-5);
+    T::ensure("rt.s", abs_le(back.saturation, s, tol));
+    T::ensure("rt.v", abs_le(back.value, v, tol));
+    T::identical("hue_passes_through", &back.hue.into_raw_degrees(), &h);
+    T::ensure("hsl.in_bounds", conj::<T>(&[in_range(hsl.saturation, -1e-12, 1.0 + 1e-9), in_range(hsl.lightness, -1e-12, 1.0 + 1e-12)]));
+});
+
+program!(c01_xyz_oklab_xyz, "C01", "quick", sv,
+    "FromColorUnclamped<Xyz> for Oklab [oklab.rs], FromColorUnclamped<Oklab> for Xyz [xyz.rs], oklab::{m1, m2, m1_inv, m2_inv}",
+    "E-rt: Xyz -> Oklab -> Xyz is the identity on the D65 box within 1e-6 (published 10-digit matrices and their inverses)",
+{
+    let (x, y, z) = (T::var("x", 0.0, 0.95047), T::var("y", 0.0, 1.0), T::var("z", 0.0, 1.08883));
+    let c: Xyz<D65, T> = Xyz::new(x, y, z);
+    let ok: Oklab<T> = Oklab::from_color_unclamped(c);
+    let back: Xyz<D65, T> = Xyz::from_color_unclamped(ok);
+    let tol = T::tol(1e-6, 1e-5);
+    T::ensure("rt.x", abs_le(back.x, x, tol));
+    T::ensure("rt.y", abs_le(back.y, y, tol));
+    T::ensure("rt.z", abs_le(back.z, z, tol));
+});
+
+program!(c01_lab_lch_lab, "C01", "quick", sv,
+    "FromColorUnclamped<Lab> for Lch [lch.rs], FromColorUnclamped<Lch> for Lab [lab.rs], LabHue::{from_cartesian, into_cartesian} [hues.rs]",
+    "E-rt: Lab -> Lch -> Lab is the identity on the nominal Lab box (polar form), |d| <= 1e-9; l passes through",
+{
+    let (l, a, b) = (T::var("l", 0.0, 100.0), T::var("a", -128.0, 127.0), T::var("b", -128.0, 127.0));
+    let c: Lab<D65, T> = Lab::new(l, a, b);
+    let lch: Lch<D65, T> = Lch::from_color_unclamped(c);
+    let back: Lab<D65, T> = Lab::from_color_unclamped(lch);
+    let tol = T::tol(1e-9, 1e-3);
+    T::identical("l_passes_through", &back.l, &l);
+    T::ensure("rt.a", abs_le(back.a, a, tol));
+    T::ensure("rt.b", abs_le(back.b, b, tol));
+    T::ensure("chroma.nonneg", T::p_le(&T::k(0.0), &lch.chroma));
+});
+
+program!(c01_luv_lchuv_luv, "C01", "quick", sv,
+    "FromColorUnclamped<Luv> for Lchuv [lchuv.rs], FromColorUnclamped<Lchuv> for Luv [luv.rs]",
+    "E-rt: Luv -> Lchuv -> Luv is the identity on the nominal Luv box, |d| <= 1e-9",
+{
+    let (l, u, v) = (T::var("l", 0.0, 100.0), T::var("u", -84.0, 176.0), T::var("v", -135.0, 108.0));
+    let c: Luv<D65, T> = Luv::new(l, u, v);
+    let p: Lchuv<D65, T> = Lchuv::from_color_unclamped(c);
+    let back: Luv<D65, T> = Luv::from_color_unclamped(p);
+    let tol = T::tol(1e-9, 1e-3);
+    T::identical("l_passes_through", &back.l, &l);
+    T::ensure("rt.u", abs_le(back.u, u, tol));
+    T::ensure("rt.v", abs_le(back.v, v, tol));
+});
+
+program!(c01_oklab_oklch_oklab, "C01", "quick", sv,
+    "FromColorUnclamped<Oklab> for Oklch [oklch.rs], FromColorUnclamped<Oklch> for Oklab [oklab.rs]",
+    "E-rt: Oklab -> Oklch -> Oklab is the identity for l in [0,1], a,b in [-0.5,0.5], |d| <= 1e-9",
+{
+    let (l, a, b) = (T::var("l", 0.0, 1.0), T::var("a", -0.5, 0.5), T::var("b", -0.5, 0.5));
+    let c: Oklab<T> = Oklab::new(l, a, b);
+    let p: Oklch<T> = Oklch::from_color_unclamped(c);
+    let back: Oklab<T> = Oklab::from_color_unclamped(p);
+    let tol = T::tol(1e-9, 1e-5);
+    T::identical("l_passes_through", &back.l, &l);
+    T::ensure("rt.a", abs_le(back.a, a, tol));
+    T::ensure("rt.b", abs_le(back.b, b, tol));
+});
+
+// ---- direct conversion == stepwise conversion (the derive-chosen route), alpha pass-through ----
+program!(c01_direct_vs_stepwise, "C01", "quick", v,
+    "derive(FromColorUnclamped) routes [palette_derive/src/convert], FromColorUnclamped for Lab/Hsv/Hwb/Yxy from Rgb",
+    "E-comp: a direct conversion yields the SAME terms as converting step by step along the conversion tree: Rgb->Lab == Rgb->Xyz->Lab, Rgb->Hwb == Rgb->Hsv->Hwb, Hsl->Xyz == Hsl->Rgb->Xyz, Rgb->Yxy == Rgb->Xyz->Yxy, Lch->Xyz == Lch->Lab->Xyz",
+{
+    let (r, g, b) = (T::var("r", 0.0, 1.0), T::var("g", 0.0, 1.0), T::var("b", 0.0, 1.0));
+    let c: LinSrgb<T> = LinSrgb::new(r, g, b);
+    let direct: Lab<D65, T> = Lab::from_color_unclamped(c);
+    let via: Lab<D65, T> = Lab::from_color_unclamped(Xyz::<D65, T>::from_color_unclamped(c));
+    T::identical("rgb_lab.l", &direct.l, &via.l);
+    T::identical("rgb_lab.a", &direct.a, &via.a);
+    T::identical("rgb_lab.b", &direct.b, &via.b);
+    let dy: Yxy<D65, T> = Yxy::from_color_unclamped(c);
+    let vy: Yxy<D65, T> = Yxy::from_color_unclamped(Xyz::<D65, T>::from_color_unclamped(c));
+    T::identical("rgb_yxy.x", &dy.x, &vy.x);
+    T::identical("rgb_yxy.y", &dy.y, &vy.y);
+    T::identical("rgb_yxy.luma", &dy.luma, &vy.luma);
+    let dw: Hwb<Linear<Srgb>, T> = Hwb::from_color_unclamped(c);
+    let vw: Hwb<Linear<Srgb>, T> = Hwb::from_color_unclamped(Hsv::<Linear<Srgb>, T>::from_color_unclamped(c));
+    T::identical("rgb_hwb.w", &dw.whiteness, &vw.whiteness);
+    T::identical("rgb_hwb.b", &dw.blackness, &vw.blackness);
+    T::identical("rgb_hwb.h", &dw.hue.into_raw_degrees(), &vw.hue.into_raw_degrees());
+    let hsl: Hsl<Linear<Srgb>, T> = Hsl::new(T::var("h", 0.0, 360.0), T::var("s", 0.0, 1.0), T::var("li", 0.0, 1.0));
+    let dx: Xyz<D65, T> = Xyz::from_color_unclamped(hsl);
+    let vx: Xyz<D65, T> = Xyz::from_color_unclamped(LinSrgb::<T>::from_color_unclamped(hsl));
+    T::identical("hsl_xyz.x", &dx.x, &vx.x);
+    T::identical("hsl_xyz.y", &dx.y, &vx.y);
+    T::identical("hsl_xyz.z", &dx.z, &vx.z);
+    let lch: Lch<D65, T> = Lch::new(T::var("ll", 0.0, 100.0), T::var("cc", 0.0, 128.0), T::var("hh", 0.0, 360.0));
+    let dl: Xyz<D65, T> = Xyz::from_color_unclamped(lch);
+    let vl: Xyz<D65, T> = Xyz::from_color_unclamped(Lab::<D65, T>::from_color_unclamped(lch));
+    T::identical("lch_xyz.x", &dl.x, &vl.x);
+    T::identical("lch_xyz.y", &dl.y, &vl.y);
+    T::identical("lch_xyz.z", &dl.z, &vl.z);
+});
+
+program!(c01_alpha_passthrough, "C01", "quick", sv,
+    "impl FromColorUnclamped<Alpha<C1,T>> / <C1> for Alpha<C2,T> [alpha/alpha.rs]",
+    "E-alpha: converting a colour with alpha yields the SAME colour terms as converting the bare colour, and the alpha term is the input alpha; bare -> Alpha gets max_intensity",
+{
+    let (r, g, b, a) = (T::var("r", 0.0, 1.0), T::var("g", 0.0, 1.0), T::var("b", 0.0, 1.0), T::var("alpha", 0.0, 1.0));
+    let bare: LinSrgb<T> = LinSrgb::new(r, g, b);
+    let with: Alpha<LinSrgb<T>, T> = Alpha { color: bare, alpha: a };
+    let lab: Lab<D65, T> = Lab::from_color_unclamped(bare);
+    let laba: Alpha<Lab<D65, T>, T> = Alpha::from_color_unclamped(with);
+    T::identical("lab.l", &laba.color.l, &lab.l);
+    T::identical("lab.a", &laba.color.a, &lab.a);
+    T::identical("lab.b", &laba.color.b, &lab.b);
+    T::identical("lab.alpha", &laba.alpha, &a);
+    let hsv: Hsv<Linear<Srgb>, T> = Hsv::from_color_unclamped(bare);
+    let hsva: Alpha<Hsv<Linear<Srgb>, T>, T> = Alpha::from_color_unclamped(with);
+    T::identical("hsv.h", &hsva.color.hue.into_raw_degrees(), &hsv.hue.into_raw_degrees());
+    T::identical("hsv.s", &hsva.color.saturation, &hsv.saturation);
+    T::identical("hsv.v", &hsva.color.value, &hsv.value);
+    T::identical("hsv.alpha", &hsva.alpha, &a);
+    // dropping alpha: Alpha<Rgb> -> bare Lab
+    let dropped: Lab<D65, T> = Lab::from_color_unclamped(with);
+    T::identical("drop.l", &dropped.l, &lab.l);
+    T::identical("drop.a", &dropped.a, &lab.a);
+    // attaching: bare -> Alpha<Lab> is opaque
+    let attached: Alpha<Lab<D65, T>, T> = Alpha::from_color_unclamped(bare);
+    T::identical("attach.l", &attached.color.l, &lab.l);
+    T::ensure("attach.alpha_is_opaque", T::p_eq(&attached.alpha, &T::k(1.0)));
 });
 
 pub fn all() -> Vec<crate::Prog> {
-    vec![c01_xyz_lab_xyz::prog()]
+    vec![c01_xyz_lab_xyz::prog(), c01_lab_xyz_lab::prog(), c01_xyz_luv_xyz::prog(), c01_xyz_yxy_xyz::prog(),
+         c01_linsrgb_xyz_linsrgb::prog(), c01_srgb_transfer_rt::prog(), c01_rgb_hsv_rgb::prog(), c01_rgb_hsl_rgb::prog(),
+         c01_hsv_hwb_hsv::prog(), c01_hsv_hsl_hsv::prog(), c01_xyz_oklab_xyz::prog(), c01_lab_lch_lab::prog(),
+         c01_luv_lchuv_luv::prog(), c01_oklab_oklch_oklab::prog(), c01_direct_vs_stepwise::prog(), c01_alpha_passthrough::prog()]
 }
